@@ -18,6 +18,11 @@ def cases(tier, seed):
         yield dict(kind="mselin", seed=seed + s, depth=1 + s % 3)
         yield dict(kind="simple-leaf-mean", seed=seed + s, depth=1 + s % 3)
     yield dict(kind="simple-tree-vs-true-mse", seed=0)
+    # the 'mselin' criterion object itself, every node range and split position: impurity = mean squared residual of the least-squares linear
+    # fit for ranges with more rows than coefficients (unit weights), weighted mean as node value
+    for d in (1, 2):
+        for order in ("identity", "shuffled"):
+            yield dict(kind="linear-criterion", d=d, n=(7 if tier == "quick" else 10), order=order, seed=seed)
     # the text extracted from the .pyx files (what the proof reads) executed by CPython, against the compiled extension
     for crit in ("fast", "slow"):
         for s in range(3 if tier == "quick" else 8):
@@ -141,6 +146,45 @@ def check(c):
                     got = C._test_criterion_impurity_improvement(crit, imp, left, right)
                     if abs(got - float(exp)) > 1e-9:
                         return dict(**{"class": "improvement"}, what="%s (start=%d,pos=%d,end=%d): improvement %r, expected %r" % (c["crit"], start, pos, end, got, float(exp)))
+        return None
+    if c["kind"] == "linear-criterion":
+        from mlinsights.mlmodel.piecewise_tree_regression_criterion_linear import LinearRegressorCriterion
+        n, d = c["n"], c["d"]
+        rs = numpy.random.RandomState(c["seed"] * 31 + n + d)
+        X = numpy.ascontiguousarray(numpy.round(rs.randn(n, d), 3))
+        y = numpy.round(rs.randn(n) * 3 + 1, 3)
+        order = numpy.arange(n, dtype=numpy.intp)
+        if c["order"] == "shuffled":
+            rs.shuffle(order)
+        nbvar = d + 1
+
+        def lin_mse(idx):
+            A = numpy.hstack([X[idx], numpy.ones((len(idx), 1))])
+            beta = numpy.linalg.lstsq(A, y[idx], rcond=None)[0]
+            return float(((A @ beta - y[idx]) ** 2).mean())
+        crit = LinearRegressorCriterion(1, X)
+        y2 = numpy.ascontiguousarray(y[:, None])
+        for start in range(0, n):
+            for end in range(start + 1, n + 1):
+                C._test_criterion_init(crit, y2, None, float(n), order, start, end)
+                idx = order[start:end]
+                v = C._test_criterion_node_value(crit)
+                if abs(v - y[idx].mean()) > 1e-8:
+                    return dict(**{"class": "mselin-node-value"}, what="range [%d,%d): node value %r, mean %r" % (start, end, v, float(y[idx].mean())))
+                if end - start > nbvar:
+                    imp, exp = C._test_criterion_node_impurity(crit), lin_mse(idx)
+                    if abs(imp - exp) > 1e-7 * max(1.0, abs(exp)):
+                        return dict(**{"class": "mselin-impurity"}, what="d=%d range [%d,%d) (%d rows, %d coefficients): impurity %r, MSE of the least-squares fit %r"
+                                    % (d, start, end, end - start, nbvar, imp, exp))
+                for pos in range(start + 1, end):
+                    C._test_criterion_update(crit, pos)
+                    left, right = C._test_criterion_node_impurity_children(crit)
+                    for side, ids, got in (("left", order[start:pos], left), ("right", order[pos:end], right)):
+                        if len(ids) > nbvar:
+                            exp = lin_mse(ids)
+                            if abs(got - exp) > 1e-7 * max(1.0, abs(exp)):
+                                return dict(**{"class": "mselin-children-impurity"}, what="d=%d (%d,%d,%d): %s child (%d rows) impurity %r, MSE of the least-squares fit %r"
+                                            % (d, start, pos, end, side, len(ids), got, exp))
         return None
     from mlinsights.mlmodel import PiecewiseTreeRegressor
     rs = numpy.random.RandomState(c["seed"])
